@@ -2,7 +2,9 @@ package apph
 
 import (
 	"encoding/hex"
+
 	"fmt"
+	ctrlertypes "github.com/rigochain/rigo-go/ctrlers/types"
 	"math/big"
 	"math/rand"
 	"sort"
@@ -54,6 +56,8 @@ type Sim struct {
 	rewards map[string]*big.Int
 	recent  []*Built // recently delivered transactions (for replays)
 	profile string
+	pending []*TxSpec         // follow-up transactions of multi-step generator moves
+	lastSig map[string][]byte // signature bytes of the last successful transaction per sender
 	script  func(s *Sim, h int64) []*TxSpec
 }
 
@@ -222,6 +226,12 @@ func frac(b *big.Int, num, den int64) string {
 
 // genTx draws one transaction; mostly valid, with a separate stream of invalid ones
 func (s *Sim) genTx() *TxSpec {
+	if len(s.pending) > 0 {
+		t := s.pending[0]
+		s.pending = s.pending[1:]
+		t.Nonce = s.nonces[string(t.From)]
+		return t
+	}
 	t := s.genTx0()
 	// block 1: no staking (known finding "block-1 staking": the votes of blocks 2-4 carry genesis
 	// powers while the earliest readable ledger version already contains block 1's stakes)
@@ -433,7 +443,50 @@ func (s *Sim) genTx0() *TxSpec {
 		return t
 	default: // invalid / adversarial stream
 		base := s.genValidish()
-		switch r.Intn(12) {
+		switch r.Intn(15) {
+		case 12: // a signature that verified for an earlier transaction of this sender, on a new transaction
+			if sig, ok := s.lastSig[string(base.From)]; ok {
+				base.Tamper = "reuse-sig:" + hex.EncodeToString(sig)
+				base.Note = "reused-signature"
+			}
+		case 13, 14: // balance covers the amount but not amount + fee (two steps: first leave such a balance)
+			from := s.pick(s.all)
+			bal := s.balOf(from.Addr)
+			fee := new(big.Int).Mul(big.NewInt(int64(s.params.MinTrxGas+60)), u256(s.params.GasPrice).ToBig())
+			k := new(big.Int).Div(new(big.Int).Sub(bal, new(big.Int).Mul(fee, big.NewInt(3))), e18)
+			k.Sub(k, big.NewInt(int64(r.Intn(3))))
+			if k.Sign() > 0 {
+				delta := big.NewInt(int64(r.Intn(int(fee.Int64())/2 + 1)))
+				keep := new(big.Int).Add(new(big.Int).Mul(k, e18), delta)
+				t1 := s.baseTx(1, from, s.pick(s.all).Addr)
+				gas1 := new(big.Int).Mul(big.NewInt(int64(t1.Gas)), u256(s.params.GasPrice).ToBig())
+				out := new(big.Int).Sub(new(big.Int).Sub(bal, gas1), keep)
+				if out.Sign() > 0 && string(t1.To) != string(from.Addr) {
+					t1.Amount = out.String()
+					t1.Note = "edge-prepare"
+					var t2 *TxSpec
+					switch r.Intn(3) {
+					case 0:
+						t2 = s.baseTx(2, from, from.Addr)
+						t2.Amount = new(big.Int).Mul(k, e18).String()
+						t2.Note = "edge-selfstake-amount-covered-fee-not"
+					case 1:
+						to := s.pick(s.all)
+						if cur := s.sets[s.height]; len(cur) > 0 {
+							to, _ = s.key(cur[r.Intn(len(cur))].Addr)
+						}
+						t2 = s.baseTx(2, from, to.Addr)
+						t2.Amount = new(big.Int).Mul(k, e18).String()
+						t2.Note = "edge-delegate-amount-covered-fee-not"
+					default:
+						t2 = s.baseTx(1, from, s.pick(s.all).Addr)
+						t2.Amount = new(big.Int).Sub(keep, big.NewInt(int64(r.Intn(3)))).String()
+						t2.Note = "edge-transfer-amount-covered-fee-not"
+					}
+					s.pending = append(s.pending, t2)
+					return t1
+				}
+			}
 		case 0:
 			base.Nonce += uint64(1 + r.Intn(3))
 			base.Note = "bad-nonce-high"
@@ -663,6 +716,12 @@ func (s *Sim) learn(bt *Built, d DeliverObs) {
 		return
 	}
 	s.nonces[string(t.From)]++
+	if s.lastSig == nil {
+		s.lastSig = map[string][]byte{}
+	}
+	if tx := new(ctrlertypes.Trx); tx.Decode(bt.Bytes) == nil {
+		s.lastSig[string(t.From)] = tx.Sig
+	}
 	switch t.Type {
 	case 2:
 		s.stakes = append(s.stakes, stakeInfo{Hash: bt.Hash, From: t.From, To: t.To, Power: new(big.Int).Div(u256(t.Amount).ToBig(), e18).Int64()})
